@@ -7,10 +7,10 @@
   (negative included), any number of items, any operation / status / reason codes (unknown values
   included), any message, payload absent or of any Go type.
 
-  FINDING: the statement is true of `Request`, of every typed `Exec`, and of `Dial`, but FALSE of
-  `Batch…Unwrap` (`C12_batch_full`, `C12_batch_full_false`): `BatchOpt` only compares counts, so a
-  successful item without payload, or carrying the payload of another operation, is handed to the caller
-  as success.
+  History: before /repo commit 3ff9e72 the statement was FALSE of `Batch…Unwrap` — `BatchOpt` only compared
+  counts, so a successful item without payload, or carrying the payload of another operation, was handed
+  to the caller as success (`old_batch_*` below, about the explicit OLD variant `batchUnwrapOld`). With the
+  per-item check now in `BatchOpt` the full statement `C12_batch_full` is proved (`batch_full`).
 -/
 import KmipModel.Lemmas.ClientRespLemmas
 import KmipModel.Lemmas.NegoLemmas
@@ -114,14 +114,17 @@ theorem wrong_counts (t : Tables) (reqOp : Nat) (h : Int) (items : List Item) (h
 /-- success item without payload. -/
 theorem missing_payload (t : Tables) (reqOp : Nat) (bi : Item) (hs : bi.status = statusSuccess)
     (hp : bi.payload = none) :
-    request t reqOp (.msg 1 [bi]) = .err .missingPayload ∧ exec t reqOp true (.msg 1 [bi]) = .err .missingPayload :=
+    request t reqOp (.msg 1 [bi]) = .err (.joined [.missingAt 0]) ∧
+    exec t reqOp true (.msg 1 [bi]) = .err (.joined [.missingAt 0]) :=
   ⟨request_missing t reqOp bi hs hp, exec_err_of_request _ _ _ _ (request_missing t reqOp bi hs hp)⟩
 
 /-- success item carrying the payload of another operation. -/
 theorem foreign_payload (t : Tables) (reqOp : Nat) (bi : Item) (p : Payload) (hs : bi.status = statusSuccess)
     (hp : bi.payload = some p) (hop : p.operation ≠ reqOp) :
-    request t reqOp (.msg 1 [bi]) = .err (.wrongOperation (enumStr t.ops p.operation) (enumStr t.ops reqOp)) ∧
-    exec t reqOp true (.msg 1 [bi]) = .err (.wrongOperation (enumStr t.ops p.operation) (enumStr t.ops reqOp)) :=
+    request t reqOp (.msg 1 [bi]) =
+      .err (.joined [.wrongOperationAt (enumStr t.ops p.operation) (enumStr t.ops reqOp) 0]) ∧
+    exec t reqOp true (.msg 1 [bi]) =
+      .err (.joined [.wrongOperationAt (enumStr t.ops p.operation) (enumStr t.ops reqOp) 0]) :=
   ⟨request_foreign t reqOp bi p hs hp hop, exec_err_of_request _ _ _ _ (request_foreign t reqOp bi p hs hp hop)⟩
 
 /-- a payload of the right operation but not of its response type (an `UnknownPayload`, a request
@@ -167,13 +170,14 @@ example : request stdTables 0x12 (.msg 1 [{ op := 0, status := 1, reason := 1, m
 
 /-! ### 4. batches -/
 
-/-- `Batch` / `.Then(…).Exec()` followed by `Unwrap`: what does hold, for every response.
-    Success of the call means the header count and the number of items both equal the number of requested
-    operations; the payloads come back positionally; the joined error lists exactly the `Err()` of the
-    non-successful items, in order; it is nil iff every item is a success. -/
+/-- `Batch` / `BatchOpt` / `.Then(…).Exec()` followed by `Unwrap`, for every response. The call succeeds
+    exactly when the header count and the number of items equal the number of requested operations and
+    every successful item carries a payload of the operation requested at its position (`Conforms`); the
+    payloads come back positionally; the joined error of `Unwrap` lists exactly the `Err()` of the
+    non-successful items, in order. -/
 theorem batch_ok (t : Tables) (reqOps : List Nat) (rt : RoundTrip) (ps : List (Option Payload)) (es : List Err) :
     batchUnwrap t reqOps rt = .ok (ps, es) ↔
-      ∃ items, rt = .msg (items.length : Int) items ∧ items.length = reqOps.length ∧
+      ∃ items, rt = .msg (items.length : Int) items ∧ Conforms items reqOps ∧
         ps = items.map (·.payload) ∧ es = items.filterMap (·.err t) := by
   rw [batchUnwrap_ok_iff]
   constructor
@@ -188,9 +192,34 @@ theorem batch_ok (t : Tables) (reqOps : List Nat) (rt : RoundTrip) (ps : List (O
 theorem batch_wrong_counts (t : Tables) (reqOps : List Nat) (h : Int) (items : List Item)
     (hc : h ≠ (items.length : Int) ∨ items.length ≠ reqOps.length) :
     batchUnwrap t reqOps (.msg h items) = .err .countMismatch := by
-  simp [batchUnwrap, batchOpt_err _ h items hc]
+  simp [batchUnwrap, batchOpt_err t reqOps h items hc]
 
-/-- every failed item of an accepted batch is surfaced, with its status, reason and message. -/
+/-- right counts, but some successful item has no payload or the payload of another operation than the
+    one requested at its position: the whole response is refused … -/
+theorem batch_violation_refused (t : Tables) (reqOps : List Nat) (items : List Item)
+    (hl : items.length = reqOps.length) (hn : ¬ Conforms items reqOps) :
+    ∃ es, batchUnwrap t reqOps (.msg (items.length : Int) items) = .err (.joined es) := by
+  obtain ⟨es, he⟩ := batchOpt_refuses t reqOps items hl hn
+  exact ⟨es, by simp [batchUnwrap, he]⟩
+
+/-- … and the error still carries status, reason and message of every failed item. -/
+theorem batch_refused_reports_failed_items (t : Tables) (reqOps : List Nat) (rt : RoundTrip) (es : List ItemErr)
+    (h : batchUnwrap t reqOps rt = .err (.joined es)) :
+    ∀ hc items, rt = .msg hc items → ∀ bi, bi ∈ items → bi.status ≠ statusSuccess →
+      ItemErr.item (enumStr t.ops bi.op) (enumStr t.status bi.status) (enumStr t.reasons bi.reason) bi.msg ∈ es := by
+  have hb : batchOpt t reqOps rt = .err (.joined es) := by
+    unfold batchUnwrap at h
+    cases hb : batchOpt t reqOps rt with
+    | ok items => rw [hb] at h; cases h
+    | panic => rw [hb] at h; cases h
+    | err e => rw [hb] at h; simpa using h
+  obtain ⟨hc, items, hrt, _, _, hrep⟩ := batchOpt_joined t reqOps rt es hb
+  intro hc' items' heq
+  rw [hrt] at heq
+  cases heq
+  exact hrep
+
+/-- every failed item of an accepted batch is surfaced by `Unwrap`, with its status, reason and message. -/
 theorem batch_failed_item_surfaced (t : Tables) (reqOps : List Nat) (rt : RoundTrip)
     (ps : List (Option Payload)) (es : List Err) (h : batchUnwrap t reqOps rt = .ok (ps, es)) :
     (es = [] ↔ ∀ h' items, rt = .msg h' items → ∀ bi, bi ∈ items → bi.status = statusSuccess) ∧
@@ -217,63 +246,72 @@ def C12_batch_full (reg : List Nat) : Prop :=
     WireShaped reg rt → batchUnwrap t reqOps rt = .ok (ps, []) →
       ps = reqOps.map (fun o => some (respKind reg o))
 
-/-- counterexample 1: Activate requested; the server answers one successful item WITHOUT payload:
-    accepted, `Unwrap` returns `[nil], nil`. -/
-theorem batch_missing_payload_accepted (t : Tables) :
-    batchUnwrap t [0x12] (.msg 1 [{ op := 0x12, status := 0, reason := 0, msg := [], payload := none }]) =
+/-- … holds of the current code, for every registry, every batch length and every response. -/
+theorem batch_full (reg : List Nat) : C12_batch_full reg := by
+  intro t reqOps rt ps hw h
+  obtain ⟨items, hrt, hconf, hps, hes⟩ := (batch_ok t reqOps rt ps []).1 h
+  subst hrt
+  have hall : ∀ bi, bi ∈ items → bi.status = statusSuccess := by
+    rw [← unwrap_no_error_iff t, unwrap_snd, ← hes]
+  rw [hps]
+  exact conforms_payloads reg items reqOps hconf hall (fun bi hbi p hp => hw bi hbi p hp)
+
+/-- without any assumption on the shape (responses fabricated in-process included): payloads of the
+    requested operations, position by position — never a payload of another operation, never nil. -/
+theorem batch_operations (t : Tables) (reqOps : List Nat) (rt : RoundTrip) (ps : List (Option Payload))
+    (h : batchUnwrap t reqOps rt = .ok (ps, [])) : PayloadsOf ps reqOps := by
+  obtain ⟨items, hrt, hconf, hps, hes⟩ := (batch_ok t reqOps rt ps []).1 h
+  have hall : ∀ bi, bi ∈ items → bi.status = statusSuccess := by
+    rw [← unwrap_no_error_iff t, unwrap_snd, ← hes]
+  rw [hps]
+  exact conforms_operations items reqOps hconf hall
+
+/-- non-vacuity: a conforming two-item answer is accepted. -/
+example : batchUnwrap stdTables [0x12, 0x14]
+    (.msg 2 [{ op := 0x12, status := 0, reason := 0, msg := [], payload := some (.resp 0x12) },
+             { op := 0x14, status := 0, reason := 0, msg := [], payload := some (.resp 0x14) }]) =
+    .ok ([some (.resp 0x12), some (.resp 0x14)], []) := by decide
+
+/-- the two former counterexamples are now refused; a failed item next to the violation is still reported. -/
+example : batchUnwrap stdTables [0x12]
+    (.msg 1 [{ op := 0x12, status := 0, reason := 0, msg := [], payload := none }]) =
+    .err (.joined [.missingAt 0]) := by decide
+
+example : batchUnwrap stdTables [0x12, 0x14]
+    (.msg 2 [{ op := 0x12, status := 1, reason := 0x99, msg := [104], payload := none },
+             { op := 0xA, status := 0, reason := 0, msg := [], payload := some (.resp 0xA) }]) =
+    .err (.joined [.item (.name 4711737631466157157) (.name 412471119143380974025018302853309796) (.hex 0x99) [104],
+                   .wrongOperationAt (.name 4679028) (.name 19251844965625721) 1]) := by decide +kernel
+
+/-! #### what commit 3ff9e72 repaired: the OLD `BatchOpt` (counts only) -/
+
+/-- OLD code, counterexample 1: Activate requested; one successful item WITHOUT payload was accepted,
+    `Unwrap` returned `[nil], nil`. -/
+theorem old_batch_missing_payload_accepted (t : Tables) :
+    batchUnwrapOld t [0x12] (.msg 1 [{ op := 0x12, status := 0, reason := 0, msg := [], payload := none }]) =
       .ok ([none], []) := by
-  simp [batchUnwrap, batchOpt, unwrap, Item.err, statusSuccess]
+  simp [batchUnwrapOld, batchOptOld, unwrap, Item.err, statusSuccess]
 
-/-- counterexample 2: Activate requested; the server answers a successful Get item with a Get response
-    payload: accepted, `Unwrap` returns the Get payload without error. -/
-theorem batch_foreign_payload_accepted (t : Tables) :
-    batchUnwrap t [0x12] (.msg 1 [{ op := 0xA, status := 0, reason := 0, msg := [], payload := some (.resp 0xA) }]) =
+/-- OLD code, counterexample 2: Activate requested; a successful Get item with a Get response payload was
+    accepted, `Unwrap` returned the Get payload without error. -/
+theorem old_batch_foreign_payload_accepted (t : Tables) :
+    batchUnwrapOld t [0x12] (.msg 1 [{ op := 0xA, status := 0, reason := 0, msg := [], payload := some (.resp 0xA) }]) =
       .ok ([some (.resp 0xA)], []) := by
-  simp [batchUnwrap, batchOpt, unwrap, Item.err, statusSuccess]
+  simp [batchUnwrapOld, batchOptOld, unwrap, Item.err, statusSuccess]
 
-example : WireShaped registeredOps
-    (.msg 1 [{ op := 0xA, status := 0, reason := 0, msg := [], payload := some (.resp 0xA) }]) := by
-  intro bi hbi p hp
-  simp only [List.mem_cons, List.not_mem_nil, or_false] at hbi
-  subst hbi
-  simp only [Option.some.injEq] at hp
-  subst hp
-  decide
-
-/-- `C12_batch_full` is false of the model (hence of the code), whatever the registry. -/
-theorem C12_batch_full_false (reg : List Nat) : ¬ C12_batch_full reg := by
+/-- the full statement was false of the OLD code, whatever the registry. -/
+theorem old_batch_full_false (reg : List Nat) :
+    ¬ ∀ (t : Tables) (reqOps : List Nat) (rt : RoundTrip) (ps : List (Option Payload)),
+      WireShaped reg rt → batchUnwrapOld t reqOps rt = .ok (ps, []) →
+        ps = reqOps.map (fun o => some (respKind reg o)) := by
   intro h
   have := h stdTables [0x12] (.msg 1 [{ op := 0x12, status := 0, reason := 0, msg := [], payload := none }]) [none]
     (by intro bi hbi p hp
         simp only [List.mem_cons, List.not_mem_nil, or_false] at hbi
         subst hbi
         simp at hp)
-    (batch_missing_payload_accepted stdTables)
+    (old_batch_missing_payload_accepted stdTables)
   simp at this
-
-/-- the partial statement that does hold: every payload an accepted batch returns has the response type
-    of the operation its OWN item announces; so when the items announce the requested operations and all
-    carry a payload, `C12_batch_full`'s conclusion follows. -/
-theorem C12_batch_partial (reg : List Nat) (t : Tables) (reqOps : List Nat) (rt : RoundTrip)
-    (ps : List (Option Payload)) (es : List Err) (hw : WireShaped reg rt)
-    (h : batchUnwrap t reqOps rt = .ok (ps, es)) :
-    ∃ items, rt = .msg (items.length : Int) items ∧ ps.length = reqOps.length ∧
-      ps = items.map (·.payload) ∧
-      (∀ bi, bi ∈ items → ∀ p, bi.payload = some p → p = respKind reg bi.op) ∧
-      (items.map (·.op) = reqOps → (∀ bi, bi ∈ items → bi.payload ≠ none) →
-        ps = reqOps.map (fun o => some (respKind reg o))) := by
-  obtain ⟨items, hrt, hlen, hps, _⟩ := (batch_ok t reqOps rt ps es).1 h
-  subst hrt
-  have hk : ∀ bi, bi ∈ items → ∀ p, bi.payload = some p → p = respKind reg bi.op :=
-    fun bi hbi p hp => (hw bi hbi p hp).2
-  refine ⟨items, rfl, by rw [hps, List.length_map, hlen], hps, hk, ?_⟩
-  intro hops hpres
-  rw [hps, ← hops, List.map_map]
-  apply List.map_congr_left
-  intro bi hbi
-  cases hp : bi.payload with
-  | none => exact absurd hp (hpres bi hbi)
-  | some p => simp [Function.comp, hk bi hbi p hp]
 
 /-! ### 5. the discovery exchange of `Dial` -/
 
